@@ -7,6 +7,8 @@ use crate::{Error, InvalidDataErrorKind, Result};
 
 // We only support `String`, `Vec`, and `BTreeMap` if the `alloc` crate is available through the `alloc` feature flag.
 #[cfg(feature = "alloc")]
+use crate::ErrorKind;
+#[cfg(feature = "alloc")]
 use alloc::collections::BTreeMap;
 #[cfg(feature = "alloc")]
 use alloc::string::String;
@@ -191,7 +193,16 @@ impl<I: InputSource> Decoder<I> {
 impl DecodeFrom for String {
     fn decode_from(decoder: &mut Decoder<impl InputSource>) -> Result<Self> {
         // Decode how many bytes are in this string, and attempt to allocate a vec with the necessary capacity.
+        // We check that the buffer actually holds this many bytes first, so the allocation is bounded by the input.
         let length = decoder.decode_varuint()?;
+        let remaining = decoder.remaining();
+        if remaining < length {
+            let error = ErrorKind::UnexpectedEob {
+                requested: length,
+                remaining,
+            };
+            return Err(error.into());
+        }
         let mut vector = Vec::new();
         vector.try_reserve_exact(length)?;
 
@@ -217,9 +228,10 @@ where
     /// TODO
     fn decode_from(decoder: &mut Decoder<impl InputSource>) -> Result<Self> {
         // Decode how many elements are in this sequence, and attempt to allocate a vec with the necessary capacity.
+        // The announced length is untrusted, so we never reserve space for more elements than there are bytes left.
         let length = decoder.decode_varuint()?;
         let mut vector = Vec::new();
-        vector.try_reserve_exact(length)?;
+        vector.try_reserve_exact(core::cmp::min(length, decoder.remaining()))?;
 
         // Decode each element, and push them into the vector, one by one.
         for _ in 0..length {
@@ -243,9 +255,10 @@ where
     /// TODO
     fn decode_from(decoder: &mut Decoder<impl InputSource>) -> Result<Self> {
         // Decode how many entries are in this dictionary, and attempt to allocate a map with the necessary capacity.
+        // The announced length is untrusted, so we never reserve space for more entries than there are bytes left.
         let length = decoder.decode_varuint()?;
         let mut map = HashMap::new();
-        map.try_reserve(length)?;
+        map.try_reserve(core::cmp::min(length, decoder.remaining()))?;
 
         // Decode 'length'-many entries into the map.
         decode_dictionary_entries!(map, decoder, length);
